@@ -378,11 +378,24 @@ PROPS["C17"] = {
 }
 
 
+PROPS["C13"]["check_mods"].append("C13l2")
+PROPS["C13"]["drivers"].append({"name": "c13l2", "n_quick": 12, "n_thorough": 240, "timeout": 3000})
+PROPS["C13"]["rule"] += (" End to end (c13l2): a real connection; the listener comes from the public API "
+    "(listen_for_publisher_confirms / listen_for_returns / listen_for_connection_blocked); the broker pushes 1, 7, "
+    "300, 1500, 4097 or 4300 notices (acks / nacks with sequential or random tags and multiple flags; returns with "
+    "bodies in one or two frames; blocked / unblocked) before the client reads anything; then the receiver is "
+    "drained and a synchronous call must still work.")
+PROPS["C13"]["explanation"] += (" c13l2: the items the public receiver yields must equal what the Core model's "
+    "listener queue accepted for the same frames (model) and, independently, the notices the frames denote, "
+    "in order, none missing (oracle) - at any backlog length.")
+PROPS["C13"]["trusted_base"] = CORE_TRUSTED + L2_TRUSTED
+
 PROPS["C01"] = {
-    "check_mods": ["C01", "C01core"],
+    "check_mods": ["C01", "C01core", "C18loop"],
     "model_out": "model_out",
     "drivers": [{"name": "c01", "n_quick": 160, "n_thorough": 6000, "timeout": 3000},
-                {"name": "c01core", "n_quick": 400, "n_thorough": 16000}],
+                {"name": "c01core", "n_quick": 400, "n_thorough": 16000},
+                {"name": "c18loop", "n_quick": 120, "n_thorough": 6000, "timeout": 3000}],
     "rule": "end to end (c01): a real connection over the mock transport whose write() follows a random script "
             "of 50-4000 steps {would-block, 1-7 bytes, 8-300 bytes, up to 6000 bytes} from the very first "
             "byte (the protocol header included), writable re-signalled every 0.3 ms; 1-3 client threads each "
@@ -390,8 +403,11 @@ PROPS["C01"] = {
             "bodies 0 / limit / limit+1 / 2 limit+5 / 1-900 bytes at frame_max 4096), each logging the "
             "frames it issued; then Connection::close. The wire is split by the harness's own envelope "
             "splitter. Thread level (c01core): 1-4 channels, whole buffers into the mailboxes, channel "
-            "events in any order, writes in pieces of 1 .. all bytes blocking anywhere. non-trivial = every "
-            "scenario; distinct = distinct case term.",
+            "events in any order, writes in pieces of 1 .. all bytes blocking anywhere. Under backpressure "
+            "(c18loop, see C18): the real run_io_loop with small water marks, stalls and partial writes; whatever "
+            "the publishers' sends were accepted must be on the wire once, whole, per channel in order, after the "
+            "run has drained, and the socket's interest after every loop tail must be the model's. non-trivial = "
+            "every scenario; distinct = distinct case term.",
     "explanation": "C01_write_conserves / C01_trace_conserves / C01_whole_frames / C01_mailbox_fifo / "
                    "C01_write_interest. End to end: exactly the 8-byte header, then whole frames only with "
                    "nothing left over, every channel's frames exactly those its owner issued, in issue "
